@@ -176,6 +176,9 @@ impl Prop for C17 {
                         findings.report(Discrepancy { key: format!("C17/message/{p}-to-{v}/{f}"), case: case.clone(), detail: format!("a message produced under configuration {p} ({}) gets {} from {f} under configuration {v}", reqs[k].0, res[f]) });
                     }
                 }
+                if res["root_sets_wrong"].as_array().map(|a| !a.is_empty()).unwrap_or(false) {
+                    findings.report(Discrepancy { key: format!("C17/message/{p}-to-{v}/root-set"), case: case.clone(), detail: format!("configuration {v} handles root sets wrongly for a message produced under {p}: {}", res["root_sets_wrong"]) });
+                }
                 if res["panic"] == true || res["no_message"] == true {
                     findings.report(Discrepancy { key: format!("C17/message/{p}-to-{v}/panic"), case, detail: format!("{res}") });
                 }
@@ -215,7 +218,7 @@ impl Prop for C17 {
         ev.set("message_checks", json!(msg_checked));
         ev.set("key_sizes", keys["sizes"].clone());
         ev.set("exhaustive", json!(true));
-        ev.set("rule", json!("five probe binaries, one per feature set {default(pmtree), fullmerkletree, no-default(optimal), arkzkey, stateless}; (1) in the arkzkey build read_zkey(zkey) and read_arkzkey_from_bytes_uncompressed(arkzkey) are compared field by field (verifying key, all query vectors, matrix dimensions, non-zero counts, A/B/C rows); (2) every history of length <= L (2 quick / 3 thorough) over {set(i,v), append(v), delete(i)}, i in {0,1,2^19,2^20-1} gives root, leaf count and membership paths of all touched positions equal to the ideal tree in each tree configuration; (3) a spread of the C01 one-deviation request grid is proved under each of the five configurations (stateless: from the witness exported by the default one) and every message is checked by verify_with_roots([producer root]), verify and (stateful) verify_rln_proof under every configuration: 25 producer x verifier pairs"));
+        ev.set("rule", json!("five probe binaries, one per feature set {default(pmtree), fullmerkletree, no-default(optimal), arkzkey, stateless}; (1) in the arkzkey build read_zkey(zkey) and read_arkzkey_from_bytes_uncompressed(arkzkey) are compared field by field (verifying key, all query vectors, matrix dimensions, non-zero counts, A/B/C rows); (2) every history of length <= L (2 quick / 3 thorough) over {set(i,v), append(v), delete(i)}, i in {0,1,2^19,2^20-1} gives root, leaf count and membership paths of all touched positions equal to the ideal tree in each tree configuration; (3) a spread of the C01 one-deviation request grid is proved under each of the five configurations (stateless: from the witness exported by the default one) and every message is checked by verify_with_roots([producer root]), 15 further root sets (sizes 0, 1, 2, 4, 9, 33; own root first / middle / last / absent), verify and (stateful) verify_rln_proof under every configuration: 25 producer x verifier pairs"));
         ev.sample(json!({"history": hs[hs.len() / 2].iter().map(|o| o.json()).collect::<Vec<_>>()}));
         ev.sample(json!({"request": reqs[reqs.len() / 2].1.to_json(), "deviation": reqs[reqs.len() / 2].0}));
         ev.sample(json!({"pair": ["stateless", "fullmerkletree"]}));
